@@ -48,6 +48,11 @@ type advResponder struct {
 	deviateAt int // deviate at the n-th reply opportunity
 	replies   int
 	streamed  int
+	// cache of the parsed inbound stream
+	seenFrames   int
+	pending      []byte
+	pendingTried int
+	msgs         [][]byte
 }
 
 var advBehaviours = []string{"right", "right", "right", "wrong-kind", "surplus", "malformed", "truncated", "silence", "close"}
@@ -64,7 +69,21 @@ func (r *advResponder) step() {
 	if r.passive {
 		return
 	}
-	ms, _, _ := splitMessages(r.peer.stream(r.id, !r.asServer))
+	// incremental parse of the inbound stream (it can be many megabytes long)
+	for ; r.seenFrames < len(r.peer.Frames); r.seenFrames++ {
+		f := r.peer.Frames[r.seenFrames]
+		if f.Proto == r.id && f.Response == !r.asServer {
+			r.pending = append(r.pending, f.Payload...)
+		}
+	}
+	if len(r.pending) > 0 && len(r.pending) != r.pendingTried {
+		var more [][]byte
+		more, r.pending, _ = splitMessages(r.pending)
+		r.pending = append([]byte(nil), r.pending...)
+		r.pendingTried = len(r.pending)
+		r.msgs = append(r.msgs, more...)
+	}
+	ms := r.msgs
 	for r.consumed < len(ms) {
 		m := ms[r.consumed]
 		r.consumed++
@@ -178,23 +197,81 @@ func advCallsSetup(s *rt.Sim, tier string) func() {
 	s.Cfg.Horizon = 12 * time.Hour
 	return func() {
 		ncfg := drawNetCfg(false)
+		// arm "stalled reader": bounded socket buffer, large outbound payloads, and a peer that
+		// stops reading at some byte count (new draws use their own stream, so that the older
+		// streams keep their meaning)
+		stallArm := chance("cfg.x", 1, 4)
+		if stallArm {
+			ncfg.BufCap = oneOf("cfg.x", 65536, 8192, 262144)
+		}
 		pair := NewPair(ncfg)
 		kind := weighted("cfg", 3, 3, 1) // NtN client, NtC client, NtN server
+		if chance("cfg.x", 1, 8) {
+			kind = 3 // NtC server: its chain-sync state machine has neither timeouts nor byte limits
+		}
 		co := connOpts{magic: 42}
 		switch kind {
 		case 0:
 			co.ntn, co.peerSharing, co.keepAlive = true, true, chance("cfg", 1, 2)
 		case 2:
 			co.ntn, co.server = true, true
+		case 3:
+			co.server = true
 		}
 		// application callbacks
+		csServed := 0
 		csCfg := chainsync.NewConfig(
 			chainsync.WithRollForwardFunc(func(chainsync.CallbackContext, uint, any, chainsync.Tip) error { return nil }),
 			chainsync.WithRollBackwardFunc(func(chainsync.CallbackContext, pcommon.Point, chainsync.Tip) error { return nil }),
+			// server application (kind 3): every RequestNext is answered with one large block
+			chainsync.WithFindIntersectFunc(func(ctx chainsync.CallbackContext, pts []pcommon.Point) (pcommon.Point, chainsync.Tip, error) {
+				return samplePoint(1), sampleTip(1), nil
+			}),
+			chainsync.WithRequestNextFunc(func(ctx chainsync.CallbackContext) error {
+				n := oneOf("op", 70000, 900000, 1500000, 3000000)
+				blk := append([]byte{0x5a, byte(n >> 24), byte(n >> 16), byte(n >> 8), byte(n)}, make([]byte, n)...)
+				csServed++
+				rt.Log("chain-sync server: RollForward with a block of %d bytes", n)
+				return ctx.Server.RollForward(ledger.BlockTypeConway, blk, sampleTip(uint64(csServed)))
+			}),
 		)
+		// block-fetch server application: streams 1-4 copies of the largest fixture block
+		streamState := 0 // 0 never asked, 1 sending, 2 all server calls have returned
+		bigBlock := fixBlocks()[0]
+		for _, fb := range fixBlocks() {
+			if len(fb.Data) > len(bigBlock.Data) {
+				bigBlock = fb
+			}
+		}
 		bfCfg, _ := blockfetch.NewConfig(
 			blockfetch.WithBlockFunc(func(blockfetch.CallbackContext, uint, ledger.Block) error { return nil }),
 			blockfetch.WithBatchDoneFunc(func(blockfetch.CallbackContext) error { return nil }),
+			blockfetch.WithRequestRangeFunc(func(ctx blockfetch.CallbackContext, start, end pcommon.Point) error {
+				if streamState != 0 {
+					return nil
+				}
+				streamState = 1
+				srv := ctx.Server
+				n := 1 + pick("op", 4)
+				go func() {
+					defer func() { streamState = 2 }()
+					if err := srv.StartBatch(); err != nil {
+						return
+					}
+					for i := 0; i < n; i++ {
+						data := bigBlock.Data
+						if sz := oneOf("op", 0, 900000, 1500000); sz > 0 {
+							// an opaque CBOR byte string: the server does not look inside a block
+							data = append([]byte{0x5a, byte(sz >> 24), byte(sz >> 16), byte(sz >> 8), byte(sz)}, make([]byte, sz)...)
+						}
+						if err := srv.Block(bigBlock.Type, data); err != nil {
+							return
+						}
+					}
+					_ = srv.BatchDone()
+				}()
+				return nil
+			}),
 		)
 		opts := append(co.options(pair.A), ouroboros.WithChainSyncConfig(csCfg), ouroboros.WithBlockFetchConfig(bfCfg))
 		peer := newRawPeer(pair.B)
@@ -206,7 +283,7 @@ func advCallsSetup(s *rt.Sim, tier string) func() {
 			connRet = true
 		}()
 		if co.server {
-			if rawProposeAndAwait(peer, (connOpts{ntn: true, magic: 42}).table().m) == 0 {
+			if rawProposeAndAwait(peer, (connOpts{ntn: co.ntn, magic: 42}).table().m) == 0 {
 				return
 			}
 		} else {
@@ -227,6 +304,16 @@ func advCallsSetup(s *rt.Sim, tier string) func() {
 		csLabel, csId := "chainsync-ntc", chainsync.ProtocolIdNtC
 		if co.ntn {
 			csLabel, csId = "chainsync-ntn", chainsync.ProtocolIdNtN
+		}
+		if kind == 3 {
+			calls = append(calls, apiCall{"chainsync.server.bigblock", "chainsync-ntc", specChainSync, chainsync.ProtocolIdNtC, func(c *ouroboros.Connection) error {
+				// nothing blocks in the server application (RollForward queues the message); what is
+				// judged is that the protocol's tasks end with the connection
+				for i := 0; i < 120 && csServed == 0; i++ {
+					sleep(time.Second)
+				}
+				return nil
+			}})
 		}
 		if !co.server {
 			calls = append(calls,
@@ -315,6 +402,11 @@ func advCallsSetup(s *rt.Sim, tier string) func() {
 				apiCall{"localtxsubmission.SubmitTx", "localtxsubmission", specLocalTxSubmission, 6, func(c *ouroboros.Connection) error {
 					return c.LocalTxSubmission().Client.SubmitTx(5, []byte{0x84, 0xa0, 0xa0, 0xf5, 0xf6})
 				}},
+				apiCall{"localtxsubmission.SubmitTx(large)", "localtxsubmission", specLocalTxSubmission, 6, func(c *ouroboros.Connection) error {
+					tx := make([]byte, oneOf("op", 70000, 900000, 1500000, 3000000))
+					rt.Log("SubmitTx of %d bytes", len(tx))
+					return c.LocalTxSubmission().Client.SubmitTx(5, tx)
+				}},
 				apiCall{"localtxsubmission.SubmitTx+Stop", "localtxsubmission", specLocalTxSubmission, 6, func(c *ouroboros.Connection) error {
 					_ = c.LocalTxSubmission().Client.SubmitTx(5, []byte{0x84, 0xa0, 0xa0, 0xf5, 0xf6})
 					return c.LocalTxSubmission().Client.Stop()
@@ -333,12 +425,30 @@ func advCallsSetup(s *rt.Sim, tier string) func() {
 					_, e := c.TxSubmission().Server.RequestTxs([]txsubmission.TxId{{EraId: 5, TxId: [32]byte{1, 2, 3}}})
 					return e
 				}},
+				apiCall{"blockfetch.server.stream", "blockfetch", specBlockFetch, blockfetch.ProtocolId, func(c *ouroboros.Connection) error {
+					// the "call" is the server application's StartBatch/Block/BatchDone sequence
+					for i := 0; i < 120 && streamState == 0; i++ {
+						sleep(time.Second)
+					}
+					for streamState == 1 {
+						sleep(time.Second)
+					}
+					return nil
+				}},
 			)
 		}
 		call := calls[pick("op", len(calls))]
 		resp := &advResponder{peer: peer, spec: call.spec, label: call.label, id: call.id, asServer: !co.server, state: call.spec.Init,
 			behaviour: advBehaviours[pick("op", len(advBehaviours))], deviateAt: pick("op", 3)}
-		if co.server {
+		if stallArm {
+			if chance("cfg.x", 1, 2) {
+				resp.behaviour = "right"
+			}
+			peer.pauseAfter = peer.nread + int64(oneOf("cfg.x", 0, 1000, 70000, 300000, 1000000))
+			rt.Hit("advcalls.stalled-reader-arm")
+			rt.Log("stalled-reader arm: socket buffer %d, peer stops reading after %d more bytes", ncfg.BufCap, peer.pauseAfter-peer.nread)
+		}
+		if co.server && co.ntn {
 			// the raw client opens tx-submission
 			_ = peer.sendMsg(4, false, sampleBytes("txsubmission", 6, 0, 0))
 			resp.state = "Idle"
